@@ -847,8 +847,12 @@ class from_websocket(Source):
         )
 
     def stop(self):
-        self.server.close()
-        sync(self.loop, self.server.wait_closed)
+        if not self.stopped:
+            self.stopped = True
+            if self.server is not None:
+                self.server.close()
+                sync(self.loop, self.server.wait_closed)
+                self.server = None
 
 
 @Stream.register_api()
